@@ -432,6 +432,19 @@ theorem Ev.setTask_task {q : List Entry} {f t : Nat} {e : Entry}
   · simp [h0]
   · simp [h0] at ho
 
+theorem Ev.drop_wake_except {q : List Entry} {w : List Nat} (f : Nat) (h : WakeOKExcept f q w)
+    (ht : AllTaskExcept f q) :
+    WakeOK (Ev.drop q f) (Ev.dropOwners q f ++ w) ∧ AllTask (Ev.drop q f) := by
+  have h1 := Ev.erase_wakeOK_of_except h
+  have h2 := Ev.erase_allTask_of_except ht
+  unfold Ev.drop Ev.dropOwners; split
+  · exact ⟨Ev.notify_wakeOK _ _ _ _ h1 h2, Ev.notify_allTask _ _ _ h2⟩
+  · exact ⟨by simpa using h1, h2⟩
+
+theorem allTask_of_except {f : Nat} {q : List Entry} (h : AllTaskExcept f q)
+    (hn : Ev.has q f = false) : AllTask q :=
+  fun e he => h e he (Ev.has_false_iff.mp hn e he)
+
 theorem Ev.has_ne_nil {q : List Entry} {f : Nat} (h : Ev.has q f = true) : q ≠ [] := by
   obtain ⟨e, he, _⟩ := Ev.has_iff.mp h
   exact List.ne_nil_of_mem he
